@@ -926,7 +926,8 @@ void QXmppDataForm::toXml(QXmlStreamWriter *writer) const
             break;
         }
         default:
-            if (const auto value = field.value().toString(); !value.isEmpty()) {
+            // an empty but non-null value is a value (<value/>); only a null one means "no value"
+            if (const auto value = field.value().toString(); !value.isNull()) {
                 writeXmlTextElement(writer, u"value", value);
             }
         }
